@@ -18,14 +18,20 @@ from . import vsim
 
 TRACE = True
 TRUSTED = [
-    "C10: asyncio timer semantics are replaced by harness/vsim.py (a timer fires at exactly its due millisecond, same-instant order seed-permuted)",
+    "C10: asyncio timer semantics are replaced by harness/vsim.py (a timer fires at exactly its due millisecond unless the case asks for "
+    "seeded lateness; timers due at the same instant run in the order they were armed, as in asyncio)",
     "C10: sub-millisecond float effects (clock resolution 1e-6 ms, ttl*1000*0.1) are not modelled; the harness flags any non-integral schedule time",
     "C10: heapq is abstracted as an ascending list (pop a minimum); cancelled heap entries tied in `when` with an entry both sides hold may differ (heapq layout)",
     "C10: which reschedule/cancel call _ServiceBrowserBase.async_update_records makes for a record update (old is None / expired / else) is not modelled: "
     "the model replays the calls that were made, so that glue is judged by the oracle alone (datagrams and callbacks)",
     "C10: async_send is assumed not to raise inside a scheduler pass (the D8b input is repaired at the decoder, see C15)",
 ]
-ASSUMPTIONS = ["loop axioms WFSched (DESIGN 4.7): time is monotone, no due timer is passed, a timer block runs at its due time"]
+ASSUMPTIONS = ["loop axioms WFSched (DESIGN 4.7): time is monotone, no due timer is passed, a timer block runs at its due time "
+               "(stage C and every theorem); cases with \"late\": n run the real code on a loop whose timers fire a seeded 0..n ms late and are "
+               "judged by the oracle alone: lower bounds (20 ms, start-up steps, the inter-query delay) exactly, upper bounds plus n ms per timer involved",
+               "a browser given a unicast destination address sets the unicast-response bit on every question unless QM is forced; the property fixes "
+               "the first query and the forced case only, later unforced queries of such a browser are not judged"]
+MDNS_GROUP = ("224.0.0.251", "ff02::fb")
 
 T0 = vsim.T0
 TYPES = ["_x._tcp.local.", "_y._tcp.local."]
@@ -45,6 +51,7 @@ class Recorder:
         self.cur = None
         self.flags = []
         self.fired = None  # the handle whose callback is running / has run
+        self.asked = []    # (time, [(question name, question.unicast)]) of every query the target scheduler built
         self._saved = []
 
     def now(self):
@@ -155,7 +162,12 @@ class Recorder:
                 qt = "-" if question_type is None else ("1" if question_type is B.QU_QUESTION else "0")
                 rec.cur["sends"].append("%d,%s,%s,%s" % (rec.ival(now_millis, "now"), C.b01(rec.cur.pop("_first")), qt,
                                                          "+".join(sorted(C.hs(t) for t in types_))))
-            return orig_gen(zc, now_millis, types_, multicast, question_type)
+            outs = orig_gen(zc, now_millis, types_, multicast, question_type)
+            if rec.cur is not None:
+                # the question objects handed to the sender: their `unicast` flag is what "asks QU" means; the encoder writes the bit only
+                # into datagrams sent to the multicast group (C01/C14), so for a unicast destination the wire cannot show it
+                rec.asked.append((rec.now(), [(q.name, bool(q.unicast)) for o in outs for q in o.questions]))
+            return outs
 
         B.generate_service_query = gen
         rec._saved.append((B, "generate_service_query", orig_gen))
@@ -164,6 +176,16 @@ class Recorder:
         for obj, name, orig in reversed(self._saved):
             setattr(obj, name, orig)
         self._saved = []
+
+
+def bulk_records(case):
+    """`bulk` young cached pointer records per type with long instance names: the known-answer list of every query then exceeds one
+    packet per question, so a pass sends several datagrams"""
+    out = []
+    for ty in case["types"]:
+        for i in range(case.get("bulk", 0)):
+            out.append(("bulk%03d-%s.%s" % (i, "x" * 40, ty), ty, 4500, 1000))
+    return out
 
 
 def resp_packet(records):
@@ -182,14 +204,19 @@ def resp_packet(records):
 #         "horizon": ms, "script": [[t_ms, action, args...], ...]}      (times relative to the simulation start)
 #   sched   actions: start | ptr alias type ttl age | cancel alias | stop | close
 #   browser actions: rec alias type ttl            (ttl 0 = goodbye)  | cancel (browser) | close
+#   optional (browser): "addr": destination handed to the browser (None / the mDNS group address / a unicast address),
+#       "threaded": the synchronous `ServiceBrowser` (own thread, same scheduler) instead of `AsyncServiceBrowser`,
+#       "bulk": n  -> n further cached pointer records per type (young, long names) so that every query needs several packets,
+#       "late": n  -> timers fire a seeded 0..n ms late (oracle only, see ASSUMPTIONS)
 
 
 def run_case(case):
     from zeroconf import DNSIncoming, DNSPointer, DNSQuestion, DNSQuestionType, ServiceListener, const
     import zeroconf._services.browser as B
+    from zeroconf import ServiceBrowser
     from zeroconf.asyncio import AsyncServiceBrowser
 
-    sim = vsim.Sim(case["simseed"], maxdelay=0)
+    sim = vsim.Sim(case["simseed"], maxdelay=0, max_late=case.get("late", 0))
     rec = Recorder(sim)
     qt = {None: None, "QU": DNSQuestionType.QU, "QM": DNSQuestionType.QM}[case["qtype"]]
     obs = {"callbacks": [], "alive_at_end": None, "active_at_end": True, "t_start": None}
@@ -205,6 +232,8 @@ def run_case(case):
             pass
 
     async def main(sim):
+        import asyncio
+
         host = sim.make_host("B", "10.0.0.2")
         zc = host.zc
         await zc.async_wait_for_start()
@@ -219,9 +248,17 @@ def run_case(case):
                 # with their original creation time, before the scheduler is started
                 now0 = float(sim.loop.ms)
                 zc.cache.async_add_records([DNSPointer(ty, const._TYPE_PTR, const._CLASS_IN, ttl, alias, created=now0 - age)
-                                            for (alias, ty, ttl, age) in case.get("warm", [])])
+                                            for (alias, ty, ttl, age) in case.get("warm", []) + bulk_records(case)])
                 obs["t_create"] = sim.loop.ms
-                br = AsyncServiceBrowser(zc, list(case["types"]), listener=L(), delay=case["delay"], question_type=qt)
+                kw = dict(listener=L(), delay=case["delay"], question_type=qt)
+                if case.get("addr") is not None:
+                    kw["addr"] = case["addr"]
+                if case.get("threaded"):
+                    # the synchronous API: own thread for the callbacks, `_async_start` posted to the loop
+                    br = ServiceBrowser(zc, list(case["types"]), **kw)
+                    await asyncio.sleep(0)
+                else:
+                    br = AsyncServiceBrowser(zc, list(case["types"]), **kw)
                 qs = br.query_scheduler
                 rec.target = qs
                 obs["t_start"] = sim.loop.ms
@@ -229,6 +266,7 @@ def run_case(case):
                 await sim.sleep_until(act[0])
                 a = act[1]
                 now = float(sim.loop.ms)
+                obs.setdefault("act_t", []).append(sim.loop.ms - T0)  # when the action really happened (differs from act[0] on a late loop)
                 if a == "start":
                     qs.start(sim.loop)
                     obs["t_start"] = sim.loop.ms
@@ -249,7 +287,10 @@ def run_case(case):
                     # this instance can answer.  QU questions of the browser must go out regardless; only QM ones may be suppressed
                     zc.question_history.add_question_at_time(DNSQuestion(act[2], const._TYPE_PTR, const._CLASS_IN), now, set())
                 elif a == "cancel":
-                    await br.async_cancel()
+                    if case.get("threaded"):
+                        br.cancel()
+                    else:
+                        await br.async_cancel()
                     br = None
                     obs["active_at_end"] = False
                 elif a == "close":
@@ -259,7 +300,10 @@ def run_case(case):
             h = qs._next_run
             obs["alive_at_end"] = bool(h is not None and not h._cancelled and h is not rec.fired)
             if br is not None:
-                await br.async_cancel()
+                if case.get("threaded"):
+                    br.cancel()
+                else:
+                    await br.async_cancel()
             elif case["kind"] == "sched":
                 qs.stop()
         finally:
@@ -272,6 +316,7 @@ def run_case(case):
         m = DNSIncoming(data)
         if m.is_query():
             queries.append([t + T0, sorted(q.name for q in m.questions), [bool(q.unique) for q in m.questions]])
+            obs.setdefault("packets", []).append(t + T0)
     merged = []
     for q in queries:  # several packets of one pass (known answers split) are one query event
         if merged and merged[-1][0] == q[0]:
@@ -283,6 +328,7 @@ def run_case(case):
     obs["errors"] = [str(e.get("exception") or e.get("message")) for e in sim.errors]
     obs["events"] = rec.events
     obs["flags"] = rec.flags
+    obs["asked"] = rec.asked
     return obs
 
 
@@ -323,10 +369,41 @@ def heaps_agree(impl_heap, model_heap):
 # stage O: the property's sentence on the implementation's observations (browser stream)
 
 
+def kept_schedule(obs, alias, created):
+    """The time `k` of the scheduler's entry for `alias` (lower-cased instance name) if the pointer update for the record created at
+    `created` left that entry where it was (churn rule); None if the update scheduled a new entry, or cannot be found.
+    Read from the block log (dict `_next_scheduled_for_alias` before and after the `reschedule_ptr_first_refresh` block): used only to
+    recognise the input class of the known finding `C10:refresh-late-kept-schedule`, never to widen a bound."""
+    def entry(state):
+        for item in state["dict"]:
+            key, val = item.split("=", 1)
+            if bytes.fromhex(key).decode("utf-8", "surrogatepass") == alias:
+                f = val.split(",")
+                return int(f[4]), f[5]
+        return None
+
+    evs = obs.get("events") or []
+    for i, e in enumerate(evs):
+        tok = e["line"].split()
+        if tok[0] != "P" or i == 0:
+            continue
+        if bytes.fromhex(tok[2]).decode("utf-8", "surrogatepass").lower() != alias or int(tok[5]) != created:
+            continue
+        before, after = entry(evs[i - 1]["state"]), entry(e["state"])
+        if before is not None and after is not None and before == after and after[1] == "0":
+            return after[0]
+        return None
+    return None
+
+
 def oracle(case, obs):
     """-> list of (sig, what)"""
     bad = []
     delay = case["delay"]
+    late = case.get("late", 0)            # timers may fire up to `late` ms late in this run: upper bounds get that slack, lower bounds none
+    addr = case.get("addr")
+    unicast_dest = addr is not None and addr not in MDNS_GROUP
+    threaded = bool(case.get("threaded"))
     horizon = case["horizon"] + T0
     t_start = obs["t_start"]
     queries = obs["queries"]
@@ -339,27 +416,48 @@ def oracle(case, obs):
             t_end = min(t_end, act[0] + T0)
     if obs["errors"]:
         bad.append(("C10:exception-in-scheduler", "exception reached the loop: %s" % obs["errors"][0][:120]))
+    # "asks QU": the `unicast` flag of the question objects the scheduler hands to the sender.  For a browser that multicasts the flag must
+    # also be the bit on the wire; for a unicast destination the encoder leaves the bit out by design, so the objects are judged
+    asked = {}
+    for (t, qs) in obs.get("asked", []):
+        asked.setdefault(t, []).extend(qs)
+
+    def qu_of(q):
+        flags = [u for (_n, u) in asked.get(q[0], [])]
+        if unicast_dest:
+            return flags
+        if sorted(flags) != sorted(q[2]) and "C10:qu-bit-wire" not in [b_[0] for b_ in bad]:
+            bad.append(("C10:qu-bit-wire", "query at %d ms: question objects have unicast flags %s, the datagrams carry %s" % (q[0] - T0, flags, q[2])))
+        return q[2]
+
     # ---- start-up
     sched = [0, 1000, 5000, 14000]
-    expect = [k for k in sched if t_start is not None and t_start + 120 + k < t_end]
+    expect = [k for k in sched if t_start is not None and t_start + 120 + k + 5 * late < t_end]
     if expect:
         if len(qt) < len(expect):
             bad.append(("C10:startup-missing", "only %d of the %d start-up queries were sent" % (len(qt), len(expect))))
         else:
             d = qt[0] - t_start
-            if not (20 <= d <= 120):
+            if not (20 <= d <= 120 + late):
                 bad.append(("C10:startup-first-delay", "first query %d ms after start (20..120 expected)" % d))
             gaps = [qt[i] - qt[0] for i in range(len(expect))]
-            if gaps != sched[:len(expect)]:
+            steps = [b - a for a, b in zip(gaps, gaps[1:])]
+            want_steps = [b - a for a, b in zip(sched, sched[1:])][:len(steps)]
+            if any(not (w_ <= g <= w_ + late) for g, w_ in zip(steps, want_steps)):
                 bad.append(("C10:startup-spacing", "start-up queries at +%s ms (expected +%s)" % (gaps, sched[:len(expect)])))
             for i in range(len(expect)):
-                names, qu = queries[i][1], queries[i][2]
+                names, qu = queries[i][1], qu_of(queries[i])
                 if names != sorted(case["types"]):
-                    bad.append(("C10:startup-types", "start-up query %d asks %s" % (i, names)))
+                    bad.append(("C10:startup-types", "start-up query %d asks %s (browsed types: %s)" % (i, names, sorted(case["types"]))))
+                # "the first QU unless a question type is forced": forced type on every question; unforced: the first query QU and -- for a
+                # browser that multicasts (no address given, or the mDNS group address itself) -- the later ones QM.  Later unforced
+                # queries of a browser with a unicast destination are not judged (ASSUMPTIONS)
+                if case["qtype"] is None and i > 0 and unicast_dest:
+                    continue
                 want_qu = (case["qtype"] == "QU") or (case["qtype"] is None and i == 0)
                 if any(b != want_qu for b in qu):
-                    bad.append(("C10:startup-qu", "start-up query %d has QU bits %s (forced type %s)" % (i, qu, case["qtype"])))
-        n_start = sum(1 for t in qt if t <= t_start + 120 + 14000)
+                    bad.append(("C10:startup-qu", "start-up query %d has QU bits %s (forced type %s, destination %s)" % (i, qu, case["qtype"], addr or "default (multicast)")))
+        n_start = sum(1 for t in qt if t <= t_start + 120 + 14000 + 4 * late)
         if len(expect) == 4 and n_start != 4:
             bad.append(("C10:startup-count", "%d queries on the wire during the start-up phase (four expected: at d, +1 s, +5 s, +14 s)" % n_start))
     # ---- rate limit after the four start-up queries
@@ -371,9 +469,12 @@ def oracle(case, obs):
         return bad
     # ---- per-record history (key: lower-cased alias, RFC/C20 identity)
     hist = {}
-    for act in case["script"]:
+    act_t = obs.get("act_t") or []
+    for k_, act in enumerate(case["script"]):
         if act[1] == "rec":
             t, _, alias, ty, ttl = act
+            if k_ < len(act_t):
+                t = act_t[k_]
             if ty in case["types"] and t + T0 < t_end:
                 hist.setdefault((ty, alias.lower()), []).append((t + T0, ttl if ttl == 0 else max(ttl, floor_ttl)))
     warm = set()
@@ -382,10 +483,12 @@ def oracle(case, obs):
             hist.setdefault((ty, alias.lower()), []).insert(0, (obs["t_create"] - age, ttl))
             warm.add((ty, alias.lower()))
     post = [q for q in queries[4:]] if len(queries) >= 4 else []
-    # refresh passes ask QM unless QU is forced
+    # refresh passes ask QM unless QU is forced (multicasting browsers; see the start-up clause for unicast destinations)
     for q in post:
-        if any(b != (case["qtype"] == "QU") for b in q[2]):
-            bad.append(("C10:refresh-qu", "refresh query at %d ms has QU bits %s (forced type %s)" % (q[0] - T0, q[2], case["qtype"])))
+        if case["qtype"] is None and unicast_dest:
+            break
+        if any(b != (case["qtype"] == "QU") for b in qu_of(q)):
+            bad.append(("C10:refresh-qu", "refresh query at %d ms has QU bits %s (forced type %s)" % (q[0] - T0, qu_of(q), case["qtype"])))
             break
 
     def hits(ty, lo, hi):
@@ -421,15 +524,31 @@ def oracle(case, obs):
                 continue
             expire = c + 1000 * T
             w = c + 750 * T
-            # the schedule may be the one kept from an earlier sighting when that lies within `delay` (churn rule)
-            lo, hi = (w, w + delay) if nlearn == 1 else (w - delay, w + 2 * delay)
-            if (ty, alias) in warm and ivs[0][0] == c and w <= t_start + 120 + 14000:
+            # The English: "queried for at about 75 percent of its TTL ... at most the configured inter-query delay late".  A record
+            # seen once: [w, w + delay].  A refreshed record may keep the schedule of the earlier sighting (churn rule); "about" is read
+            # as admitting a query up to `delay` EARLY then, the lateness bound stays one delay: [w - delay, w + delay]  (reading stated
+            # in Props/C10.lean and the manifest; the bound the code actually meets is w + 2*delay, `C10_refreshed_chain`).
+            lo, hi = (w, w + delay + late) if nlearn == 1 else (w - delay, w + delay + late)
+            if (ty, alias) in warm and ivs[0][0] == c and w <= t_start + 120 + 14000 + 4 * late:
                 # a cached record whose 75% time is already past (or falls into the start-up phase) when the browser is created: its
                 # entry is due at the first running-phase pass, one delay after the fourth start-up query; the +10% steps follow
-                lo, hi = t_start + 20 + 14000 + delay, t_start + 120 + 14000 + delay
+                lo, hi = t_start + 20 + 14000 + delay, t_start + 120 + 14000 + delay + 5 * late
             if hi >= min(t_end, expire):
                 continue
             cand = hits(ty, lo, hi)
+            if not cand and nlearn > 1:
+                # FINDING (second review): the entry kept from the earlier sighting lies at k in (w, w + delay] and a pass for another
+                # type inside (k - delay, k) pushes the query to (k, k + delay] -- up to 2*delay after w.  Recognised only for exactly
+                # that input class: the scheduler's own entry for the alias was left where it was by this refresh, at such a k, and
+                # the query comes no later than k + delay (`C10_refreshed_one_delay_partial` has the complementary hypothesis).
+                k = kept_schedule(obs, alias, c)
+                lateq = hits(ty, w + delay + late + 1, k + delay + late) if (k is not None and w < k <= w + delay and k + delay + late < min(t_end, expire)) else []
+                if lateq:
+                    bad.append(("C10:refresh-late-kept-schedule",
+                                "refreshed record %s (TTL %d, refreshed at %d ms, 75%% at %d ms): the schedule of the earlier sighting (%d ms, %d ms after the new "
+                                "75%% time) was kept and another pass delayed it: first query for %s at %d ms, %d ms late (delay %d)"
+                                % (alias, T, c - T0, w - T0, k - T0, k - w, ty, lateq[0] - T0, lateq[0] - w, delay)))
+                    cand = lateq
             if not cand:
                 bad.append(("C10:no-refresh-query", "record %s (TTL %d learned at %d ms) got no query for %s in [%d, %d]"
                             % (alias, T, c - T0, ty, lo - T0, hi - T0)))
@@ -442,8 +561,8 @@ def oracle(case, obs):
                 # a follow-up due before the expiry must be sent; when other records' passes (or silent ones after cancellations) can
                 # hold it back by up to `delay`, only those whose whole window precedes the expiry are demanded -- with a single
                 # record in the scenario nothing can hold it back
-                while nxt < expire and (nxt + delay < min(t_end, expire) or (solo and nxt + delay < t_end)):
-                    h2 = hits(ty, nxt, nxt + delay)
+                while nxt < expire and (nxt + delay + late < min(t_end, expire) or (solo and nxt + delay + late < t_end)):
+                    h2 = hits(ty, nxt, nxt + delay + late)
                     if not h2:
                         good = False
                         why = nxt
@@ -457,7 +576,7 @@ def oracle(case, obs):
                             % (alias, T, c - T0, ty, why - T0, why + delay - T0)))
     # ---- Removed by expiry only after refresh attempts
     for (t, kind, ty, name) in obs["callbacks"]:
-        if kind != "rem":
+        if kind != "rem" or threaded:  # (the synchronous browser calls back from its own thread: no virtual time stamp)
             continue
         for (c, T, end, nlearn, how) in lives.get((ty, name.lower()), []):
             if how in ("final", "expired") and c + 1000 * T <= t <= c + 1000 * T + 11000 and c + 1000 * T < t_end:
@@ -555,7 +674,55 @@ def gen_browser_case(rng, i):
     case = {"kind": "browser", "delay": delay, "qtype": qtype, "types": types, "simseed": rng.randint(0, 10**6), "horizon": horizon, "script": script}
     if warm:
         case["warm"] = warm
+    # the other ways a browser can be created / run (second review, escapes 1-4): an explicit destination (the mDNS group itself, or a
+    # unicast address), the synchronous `ServiceBrowser`, queries that need several packets, a loop whose timers fire late
+    r = rng.random()
+    if r < 0.10:
+        case["addr"] = "224.0.0.251"
+    elif r < 0.22:
+        case["addr"] = "10.0.0.77"
+    if rng.random() < 0.12:
+        case["threaded"] = True
+    if rng.random() < 0.15:
+        case["late"] = 3
     return case
+
+
+def gen_special_cases(rng):
+    """small fixed families run on every check (cheap, start-up phase only unless said otherwise)"""
+    out = []
+    # every destination x forced type, asynchronous and synchronous browser
+    for addr in (None, "224.0.0.251", "10.0.0.77"):
+        for qtype in (None, "QU", "QM"):
+            for threaded in (False, True):
+                c = {"kind": "browser", "delay": rng.choice([1000, 10000, 60000]), "qtype": qtype, "types": TYPES[: rng.choice([1, 2])],
+                     "simseed": rng.randint(0, 10**6), "horizon": 16000, "script": []}
+                if addr:
+                    c["addr"] = addr
+                if threaded:
+                    c["threaded"] = True
+                out.append(("dest", c))
+    # every query needs several packets (one question with its known answers per packet)
+    for qtype in (None, "QM"):
+        out.append(("bulk", {"kind": "browser", "delay": 10000, "qtype": qtype, "types": list(TYPES), "simseed": rng.randint(0, 10**6),
+                             "horizon": 16000, "script": [], "bulk": 32}))
+    # the configured delay really is the scheduler's: two records of one type whose 75% instants lie closer than the delay, synchronous and
+    # asynchronous browser, on an exact and on a late loop (the second query is rate-limited: exactly one delay after the first)
+    for threaded in (False, True):
+        for late_ in (0, 3, 3):
+            delay = rng.choice([1000, 5000, 60000])
+            c0 = rng.choice([20000, 60000])
+            gap = rng.choice([1, delay // 3, delay // 2, delay - 1])
+            ty = TYPES[0]
+            c = {"kind": "browser", "delay": delay, "qtype": None, "types": [ty], "simseed": rng.randint(0, 10**6),
+                 "horizon": c0 + 1125 * 750 + 3 * delay + 20000,
+                 "script": [[c0, "rec", "a." + ty, ty, 1125], [c0 + gap, "rec", "b." + ty, ty, 1125]]}
+            if threaded:
+                c["threaded"] = True
+            if late_:
+                c["late"] = late_
+            out.append(("spacing", c))
+    return out
 
 
 def gen_sched_case(rng, i):
@@ -666,6 +833,7 @@ def run(ctx):
         nb *= 3
         ns *= 2
     cases = [("corpus:" + name, body.get("case", body)) for name, body in C.load_corpus("C10")]
+    cases += gen_special_cases(rng)
     cases += [("browser", gen_browser_case(rng, i)) for i in range(nb)]
     cases += [("sched", gen_sched_case(rng, i)) for i in range(ns)]
     res.rule = ("op histories for one QueryScheduler: (a) full AsyncServiceBrowser fed 1-5 PTR records (TTL 60..9000 s, floor 1125) learned at "
@@ -700,7 +868,10 @@ def run(ctx):
             res.notes.append("driver unavailable: %s" % ex)
     seen = set()
     for k, (label, case, obs, verdicts, line) in enumerate(runs):
-        if model is not None:
+        for opt in ("addr", "threaded", "bulk", "late"):
+            if case.get(opt):
+                res.count("opt:" + opt)
+        if model is not None and not case.get("late"):  # (a late loop is outside the model's loop axioms: oracle only)
             compare(res, case, obs, model[k])
         for sig, what in verdicts:
             if sig in seen:
